@@ -7,7 +7,7 @@ NAME=$1; WT=$2; CRATE=$3; IDS=$4
 export CARGO_NET_OFFLINE=true CARGO_TARGET_DIR=$WT/target
 cd $WT || exit 2
 [ -f patch.diff ] || { echo "no patch.diff"; exit 2; }
-DEMO=$(git status --short | grep '^??' | grep tests/ | awk '{print $2}' | head -1)
+DEMO=$(git status --short -uall | grep '^??' | grep tests/ | awk '{print $2}' | head -1)
 echo "demo file: $DEMO"
 T=$(basename $DEMO .rs)
 echo "== demo WITH change"; cargo test -p $CRATE --offline --features verif_hooks --test $T 2>&1 | grep -E "^test result|^test .* (FAILED|ok)" | head -5
